@@ -429,3 +429,11 @@ def fabric_overdelivery(sc, sysm):
       bad.append(B.ult(B.const(mx), st["%s.len" % q]))
     return B.or_(*bad)
   return f
+
+
+def consumer_stuck(sc, sysm):
+  """nobody can move although the object's thread is not at its normal waiting place (the token wait): it is blocked somewhere else - e.g. inside a
+  post made by one of its own handlers on a full token queue"""
+  ct = sc.info["consumer"]
+  waits = [n.id for n in sysm.prog(ct).nodes if isinstance(n, ir.Op) and n.name == "get" and getattr(n.target, "name", "") == "Q"]
+  return lambda B, st: B.and_(B.not_(ended(sysm, B, st, ct)), B.not_(at_any(B, st, ct, waits)))
